@@ -14,6 +14,7 @@ import (
 	"os"
 	"os/exec"
 	"path/filepath"
+	"regexp"
 	"runtime"
 	"sort"
 	"strconv"
@@ -23,7 +24,7 @@ import (
 	"time"
 
 	"verif/internal/fw"
-	_ "verif/props"
+	"verif/props"
 )
 
 func verifDir() string {
@@ -54,6 +55,9 @@ func main() {
 	if os.Args[1] == "worker" {
 		worker(os.Args[2:])
 		return
+	}
+	if os.Args[1] == "c20child" {
+		os.Exit(props.C20Child(os.Args[2]))
 	}
 	prop := os.Args[1]
 	ch := fw.Get(prop)
@@ -183,6 +187,14 @@ func drive(ch *fw.Check, tier string, sd int64) int {
 		limit = 4 * time.Hour
 	}
 	exe, _ := os.Executable()
+	if ch.Race {
+		exe = filepath.Join(filepath.Dir(exe), "vcheck.race")
+		if _, err := os.Stat(exe); err != nil {
+			fmt.Fprintln(os.Stderr, "race build missing:", err)
+			return 3
+		}
+		os.Setenv("GORACE", "halt_on_error=0 exitcode=0 log_path="+filepath.Join(work, "race"))
+	}
 	results := make([]*fw.Result, n)
 	var wg sync.WaitGroup
 	for i := 0; i < n; i++ {
@@ -193,6 +205,10 @@ func drive(ch *fw.Check, tier string, sd int64) int {
 		}(i)
 	}
 	wg.Wait()
+
+	if ch.Race {
+		results = append(results, raceReports(work))
+	}
 
 	// merge
 	merged := &fw.Result{Counters: map[string]int64{}, Sets: map[string][]string{}}
@@ -499,4 +515,59 @@ func tail(s string, n int) string {
 		return s[:n/2] + "\n…\n" + s[len(s)-n/2:]
 	}
 	return s
+}
+
+var raceFrame = regexp.MustCompile(`^  (github\.com/dave/dst[^\s(]*\.[A-Za-z0-9_.()*]+)`)
+
+// raceReports parses the race detector's log files: one violation per distinct pair of innermost
+// dave/dst frames; every report is counted.
+func raceReports(work string) *fw.Result {
+	res := &fw.Result{Counters: map[string]int64{}, Sets: map[string][]string{}}
+	logs, _ := filepath.Glob(filepath.Join(work, "race.*"))
+	seen := map[string]bool{}
+	for _, lg := range logs {
+		b, err := os.ReadFile(lg)
+		if err != nil {
+			continue
+		}
+		for _, block := range strings.Split(string(b), "==================") {
+			if !strings.Contains(block, "WARNING: DATA RACE") {
+				continue
+			}
+			res.Counters["race_reports"]++
+			// innermost dst frame of each of the two stacks
+			var frames []string
+			for _, stack := range strings.Split(block, "\n\n") {
+				if !(strings.Contains(stack, " by goroutine ") || strings.Contains(stack, " by main goroutine")) || strings.Contains(stack, "created at:") && !strings.Contains(stack, "Previous") && !strings.Contains(stack, "Read at") && !strings.Contains(stack, "Write at") {
+					continue
+				}
+				if len(frames) == 2 {
+					break
+				}
+				fr := "(no dst frame)"
+				for _, l := range strings.Split(stack, "\n") {
+					if m := raceFrame.FindStringSubmatch(l); m != nil {
+						fr = strings.TrimPrefix(m[1], "github.com/dave/dst")
+						break
+					}
+				}
+				frames = append(frames, fr)
+			}
+			sort.Strings(frames)
+			sig := "race:" + strings.Join(frames, "|")
+			res.Counters["sig:"+sig]++
+			if !seen[sig] {
+				seen[sig] = true
+				d := block
+				if len(d) > 3500 {
+					d = d[:3500]
+				}
+				res.Violations = append(res.Violations, fw.Violation{Rule: "data-race", Signature: sig, CaseID: "race-log", Detail: d})
+			}
+		}
+	}
+	if _, ok := res.Counters["race_reports"]; !ok {
+		res.Counters["race_reports"] = 0
+	}
+	return res
 }
